@@ -73,6 +73,33 @@ class Server:
         return P.is_call(r, 'Stream::poll_next') and 'Fuse<' in (P.call_term(P.unbound(r)).get('self_ty') or '')
 
 
+def guard_flag_writes(F, P, flag, module='server'):
+    """writes of a constant to the guard's bool flag, as seen by the code that uses the guard: a direct field assignment, or a call to a setter method of the
+    guard type whose only effect is such an assignment (then the write is attributed to each call site).  -> [(fn, block, stmt-or-term for loc(), value, local)]"""
+    from engine.asyncs import base_local
+    from .common import in_module
+    raw = []
+    for f in F.fns.values():
+        if F.is_derived(f) or not in_module(f, module):
+            continue
+        for i, j, s in f.stmts():
+            fs = [e[2] for e in s['pl']['p'] if e[0] == 'f']
+            if fs and fs[-1] == flag and s['rv']['k'] == 'use' and s['rv']['op']['k'] == 'const':
+                raw.append((f, i, s, 'true' in s['rv']['op']['v']))
+    out = []
+    for f, i, s, val in raw:
+        is_setter = (f.kind == 'AssocFn' and f.impl_of and f.impl_of.get('self_head') and 'ResponseGuard' in f.impl_of['self_head'] and not f.impl_of.get('trait')
+                     and not list(f.calls()) and s['pl']['l'] == 1 and sum(1 for _ in f.stmts()) <= 3)
+        if not is_setter:
+            out.append((f, i, s, val, s['pl']['l']))
+            continue
+        for g in F.fns.values():
+            for bb, t in g.calls():
+                if F.callee_fn(t) is f:
+                    out.append((g, bb, t, val, base_local(g, P, t['args'][0])))
+    return out
+
+
 def guard_always_disarmed(ctx, tag, S):
     """After the Abortable in execute completed (either way), every path to the return clears the guard flag: a finished
     execution never reports its id for clean-up (which could un-track a later request reusing the id)."""
@@ -90,11 +117,7 @@ def guard_always_disarmed(ctx, tag, S):
         for aw in awaits(P, f):
             if any(P.unbound(r) == ('call', f.id, ab[0][0]) for r, _ in aw['roots']):
                 a = aw
-        dis = []
-        for i, j, s in f.stmts():
-            fs = [e[2] for e in s['pl']['p'] if e[0] == 'f']
-            if fs and fs[-1] == flag and s['rv']['k'] == 'use' and s['rv']['op']['k'] == 'const' and 'false' in s['rv']['op']['v']:
-                dis.append(i)
+        dis = [i for g_, i, s_, val_, _l in guard_flag_writes(F, P, flag) if g_.id == f.id and not val_]
         ok = a is not None and a['ready_bb'] is not None and bool(dis) and cfg.all_paths_pass(f, a['ready_bb'], cfg.exits(f), set(dis))
         # every response hand-off (send on the response queue) completes before the disarm: it is inside the Abortable, or its await
         # dominates the disarm
